@@ -8,6 +8,13 @@ package verifstate
 // in most histories instead of once in a while.
 
 import (
+	"fmt"
+	"time"
+
+	"github.com/hashicorp/consul/agent/consul/state"
+	"github.com/hashicorp/consul/proto/private/pbpeering"
+	"google.golang.org/protobuf/proto"
+	"google.golang.org/protobuf/types/known/timestamppb"
 	"github.com/hashicorp/consul/agent/structs"
 	"github.com/hashicorp/consul/api"
 	"github.com/hashicorp/consul/types"
@@ -41,6 +48,10 @@ func (w *World) DrawC06Op(t *rapid.T) *Op {
 		return w.DrawC06Tags(t)
 	case x < 44:
 		return w.DrawC06SessionCheck(t)
+	case x < 49:
+		return w.DrawC06Peering(t)
+	case x < 54:
+		return w.DrawC06NodeMeta(t)
 	}
 	return w.DrawOp(t, C06Cfg)
 }
@@ -390,4 +401,150 @@ func (w *World) DrawC06SessionCheck(t *rapid.T) *Op {
 		named = sessions
 	}
 	return NewSessDestroy(w.NextIdx(t), pick(t, "scend", named).ID)
+}
+
+// ---- peering writes (C06 only): ops outside the shared vocabulary. The request is carried as protobuf bytes in
+// Payload.CE and executed by C06Apply through the Store methods the FSM handlers call.
+
+const (
+	C06PeeringWrite      = "c06/peering-write"
+	C06PeeringTerminate  = "c06/peering-terminate"
+	C06PeeringDelete     = "c06/peering-delete"
+	C06TrustBundleWrite  = "c06/trust-bundle-write"
+	C06TrustBundleDelete = "c06/trust-bundle-delete"
+)
+
+// C06PeerIDs are the fixed peering IDs of the two peer names.
+var C06PeerIDs = map[string]string{"peerA": "2a000000-0000-4000-8000-00000000000a", "peerB": "2a000000-0000-4000-8000-00000000000b"}
+
+func newC06Proto(kind string, idx uint64, m proto.Message, desc string) *Op {
+	b, err := proto.Marshal(m)
+	if err != nil {
+		panic(fmt.Sprintf("verifstate: cannot encode %s: %v", kind, err))
+	}
+	return (&Op{Kind: kind, Idx: idx, Desc: desc, P: &Payload{CE: b}}).Seal()
+}
+
+// C06Apply executes the C06-only kinds and hands everything else to Apply.
+func C06Apply(s *state.Store, o *Op) Result {
+	done := func(err error) Result { return Result{OK: err == nil, Err: err} }
+	dec := func(m proto.Message) {
+		if err := proto.Unmarshal(o.Fresh().CE, m); err != nil {
+			panic(fmt.Sprintf("verifstate: cannot decode %s: %v", o.Kind, err))
+		}
+	}
+	switch o.Kind {
+	case C06PeeringWrite:
+		var req pbpeering.PeeringWriteRequest
+		dec(&req)
+		return done(s.PeeringWrite(o.Idx, &req))
+	case C06PeeringTerminate:
+		var req pbpeering.PeeringTerminateByIDRequest
+		dec(&req)
+		return done(s.PeeringTerminateByID(o.Idx, req.ID))
+	case C06PeeringDelete:
+		var req pbpeering.PeeringDeleteRequest
+		dec(&req)
+		return done(s.PeeringDelete(o.Idx, state.Query{Value: req.Name, EnterpriseMeta: *structs.NodeEnterpriseMetaInPartition(req.Partition)}))
+	case C06TrustBundleWrite:
+		var req pbpeering.PeeringTrustBundleWriteRequest
+		dec(&req)
+		return done(s.PeeringTrustBundleWrite(o.Idx, req.PeeringTrustBundle))
+	case C06TrustBundleDelete:
+		var req pbpeering.PeeringTrustBundleDeleteRequest
+		dec(&req)
+		return done(s.PeeringTrustBundleDelete(o.Idx, state.Query{Value: req.Name, EnterpriseMeta: *structs.NodeEnterpriseMetaInPartition(req.Partition)}))
+	}
+	return Apply(s, o)
+}
+
+// NewC06PeeringWrite and friends build the peering ops (also used by the fixed witnesses).
+func NewC06PeeringWrite(idx uint64, p *pbpeering.Peering) *Op {
+	return newC06Proto(C06PeeringWrite, idx, &pbpeering.PeeringWriteRequest{Peering: p},
+		fmt.Sprintf("peering-write %s id=%s state=%s meta=%v deleted=%v", p.Name, short(p.ID), p.State, p.Meta, p.DeletedAt != nil))
+}
+
+func NewC06PeeringTerminate(idx uint64, id string) *Op {
+	return newC06Proto(C06PeeringTerminate, idx, &pbpeering.PeeringTerminateByIDRequest{ID: id}, "peering-terminate "+short(id))
+}
+
+func NewC06PeeringDelete(idx uint64, name string) *Op {
+	return newC06Proto(C06PeeringDelete, idx, &pbpeering.PeeringDeleteRequest{Name: name}, "peering-delete "+name)
+}
+
+func NewC06TrustBundleWrite(idx uint64, name, pem string) *Op {
+	tb := &pbpeering.PeeringTrustBundle{TrustDomain: name + ".consul", PeerName: name, RootPEMs: []string{pem}}
+	return newC06Proto(C06TrustBundleWrite, idx, &pbpeering.PeeringTrustBundleWriteRequest{PeeringTrustBundle: tb}, fmt.Sprintf("trust-bundle-write %s pem=%q", name, pem))
+}
+
+func NewC06TrustBundleDelete(idx uint64, name string) *Op {
+	return newC06Proto(C06TrustBundleDelete, idx, &pbpeering.PeeringTrustBundleDeleteRequest{Name: name}, "trust-bundle-delete "+name)
+}
+
+// DrawC06Peering draws the writes of the peering service, the stream handlers and the leader's cleanup as direct
+// store calls: create (accepting side), metadata / state updates, mark for deletion, terminate by ID, final delete,
+// trust bundle write / delete. Requests are shaped as the peering service shapes them before raft apply.
+func (w *World) DrawC06Peering(t *rapid.T) *Op {
+	name := pick(t, "peername", []string{"peerA", "peerA", "peerB"})
+	_, cur, _ := w.Store.PeeringRead(nil, state.Query{Value: name})
+	clone := func() *pbpeering.Peering {
+		return &pbpeering.Peering{ID: cur.ID, Name: cur.Name, Meta: cur.Meta, State: cur.State, PeerID: cur.PeerID, PeerCAPems: cur.PeerCAPems,
+			PeerServerName: cur.PeerServerName, PeerServerAddresses: cur.PeerServerAddresses, Remote: cur.Remote, ManualServerAddresses: cur.ManualServerAddresses}
+	}
+	k := rapid.IntRange(0, 11).Draw(t, "peerop")
+	switch {
+	case cur == nil && k <= 8:
+		p := &pbpeering.Peering{ID: C06PeerIDs[name], Name: name}
+		if chance(t, "peermeta", 30) {
+			p.Meta = map[string]string{"env": "x"}
+		}
+		return NewC06PeeringWrite(w.NextIdx(t), p)
+	case cur == nil || k <= 1: // trust bundle (refused without a peering)
+		return NewC06TrustBundleWrite(w.NextIdx(t), name, pick(t, "tbpem", []string{"pem-1\n", "pem-2\n"}))
+	case k == 2:
+		return NewC06TrustBundleDelete(w.NextIdx(t), name)
+	case k <= 4: // state update by the stream handlers
+		p := clone()
+		p.State = pick(t, "peerstate", []pbpeering.PeeringState{pbpeering.PeeringState_ACTIVE, pbpeering.PeeringState_FAILING, pbpeering.PeeringState_TERMINATED})
+		if cur.State == pbpeering.PeeringState_DELETING && p.State != pbpeering.PeeringState_TERMINATED {
+			p.State = pbpeering.PeeringState_DELETING
+			p.DeletedAt = cur.DeletedAt
+		}
+		return NewC06PeeringWrite(w.NextIdx(t), p)
+	case k == 5: // metadata update (GenerateToken on an existing peering)
+		p := clone()
+		p.Meta = map[string]string{"env": pick(t, "peerenv", []string{"x", "y"})}
+		if cur.State == pbpeering.PeeringState_DELETING {
+			p.DeletedAt = cur.DeletedAt
+		}
+		return NewC06PeeringWrite(w.NextIdx(t), p)
+	case k <= 7: // terminate by ID (the peer told us it is gone)
+		return NewC06PeeringTerminate(w.NextIdx(t), cur.ID)
+	case k <= 9: // mark for deletion (PeeringDelete RPC)
+		idx := w.NextIdx(t)
+		p := &pbpeering.Peering{ID: cur.ID, Name: cur.Name, State: pbpeering.PeeringState_DELETING, ManualServerAddresses: cur.ManualServerAddresses,
+			PeerServerAddresses: cur.PeerServerAddresses, DeletedAt: timestamppb.New(time.Unix(1700000000+int64(idx), 0).UTC())}
+		return NewC06PeeringWrite(idx, p)
+	}
+	return NewC06PeeringDelete(w.NextIdx(t), name) // final delete by the leader's cleanup routine
+}
+
+// DrawC06NodeMeta registers an existing node again with another node metadata (rack r1 / r2 / none) and nothing
+// else: lookups filtered by node metadata change without any service or check being written.
+func (w *World) DrawC06NodeMeta(t *rapid.T) *Op {
+	ns := w.LiveNodes("")
+	if len(ns) == 0 {
+		return w.DrawOp(t, C06Cfg)
+	}
+	n := pick(t, "metanode", ns)
+	req := w.c06RegReq(n.Node)
+	switch pick(t, "rack", []string{"r1", "r1", "r2", ""}) {
+	case "r1":
+		req.NodeMeta = map[string]string{"rack": "r1"}
+	case "r2":
+		req.NodeMeta = map[string]string{"rack": "r2"}
+	default:
+		req.NodeMeta = nil
+	}
+	return NewRegister(w.NextIdx(t), req)
 }
